@@ -1076,7 +1076,8 @@ def c03(tier):
 
 
 def c09(tier):
-    jobs = [LJ("VerifListener_Doc", tier, MODULES=1, EXTEND=1, NODES=1, DEPTH=0, FIXLAYOUT=1, N=W(tier, 1, 2)), LJ("VerifListener_Doc", tier, MODULES=1, CONDS=2, NODES=1, DEPTH=0, FIXLAYOUT=1, N=W(tier, 1, 2))]
+    jobs = [LJ("VerifListener_Doc", tier, NODES=1, DEPTH=0, SIBLINGS=0, CONDS=2, PARAMS=1, EXPRS=2, FIXLAYOUT=1, N=1),
+            LJ("VerifListener_Doc", tier, MODULES=1, EXTEND=1, NODES=1, DEPTH=0, FIXLAYOUT=1, N=W(tier, 1, 2)), LJ("VerifListener_Doc", tier, MODULES=1, CONDS=2, NODES=1, DEPTH=0, FIXLAYOUT=1, N=W(tier, 1, 2))]
     out = engine_a_check("C09", tier, jobs, {"VerifListener_Doc": ["accepted", "rejected"]},
                          PARSER_STUB + ["that the ANTLR runtime reports every deviation from the ATN as an error is outside (residual)"], "",
                          bounds={"listener rules": "duplicate relation / condition / parameter, extend under a model header, repeated extend: which names collide is the solver's choice",
